@@ -1,0 +1,66 @@
+//go:build verif
+
+// Contracts for the deductive verifier in /verif (gocv). Comment-only file. Keys and values are abstract (bytes: key);
+// an empty END key is +infinity.
+
+package rawkv
+
+//@ spec func inRange(s []byte, e []byte, k []byte) bool { return s <= k && (e == "" || k < e) }
+//@ spec func inRangeByEnd(s []byte, e []byte, k []byte) bool { return ite(k == "", e == "", s < k && (e == "" || k <= e)) }
+//@ spec func minEnd(a []byte, b []byte) []byte { return ite(a != "" && (b == "" || a < b), a, b) }
+
+// sendReq sends the request unchanged to the region that holds the key (by end for reverse scans) and retries on region errors.
+//@ func (c *Client) sendReq
+//@   prop C11
+//@   bytes: key
+//@   at call(SendReq) assert routed: arg_req == req && loc != nil && arg_regionID == loc.Region
+//@   ensures located: result2 == nil ==> result1 != nil && ite(reverse, inRangeByEnd(result1.StartKey, result1.EndKey, key), inRange(result1.StartKey, result1.EndKey, key))
+
+// Scan: each partial scan starts at the cursor, asks for what is still missing of the limit up to the range end, and the
+// next cursor is the end of the region just scanned (beyond the previous cursor); pairs are collected key and value together.
+//@ func (c *Client) Scan
+//@   prop C11
+//@   bytes: key
+//@   at call(sendReq) assert request: arg_key == startKey && arg_reverse == false && arg_req != nil && arg_req.Req.(*kvrpcpb.RawScanRequest).StartKey == startKey && arg_req.Req.(*kvrpcpb.RawScanRequest).EndKey == endKey &&
+//@       arg_req.Req.(*kvrpcpb.RawScanRequest).Limit == uint32(limit - len(keys)) && !arg_req.Req.(*kvrpcpb.RawScanRequest).Reverse && len(keys) < limit
+//@   loop 1 invariant paired: len(keys) == len(values)
+//@   loop 1 step walk: prev(startKey) < startKey && startKey == loc.EndKey
+//@   loop 2 invariant paired: len(keys) == len(values)
+//@   ensures paired: err == nil ==> len(keys) == len(values)
+//@   ensures done: err == nil ==> len(keys) >= limit || final(startKey) == "" || (endKey != "" && final(startKey) >= endKey)
+
+// ReverseScan mirrors Scan: the region holding the greatest key below the cursor is scanned, the next cursor is its start.
+//@ func (c *Client) ReverseScan
+//@   prop C11
+//@   bytes: key
+//@   at call(sendReq) assert request: arg_key == startKey && arg_reverse == true && arg_req != nil && arg_req.Req.(*kvrpcpb.RawScanRequest).StartKey == startKey && arg_req.Req.(*kvrpcpb.RawScanRequest).EndKey == endKey &&
+//@       arg_req.Req.(*kvrpcpb.RawScanRequest).Limit == uint32(limit - len(keys)) && arg_req.Req.(*kvrpcpb.RawScanRequest).Reverse && len(keys) < limit
+//@   loop 1 invariant paired: len(keys) == len(values)
+//@   loop 1 step walk: startKey < prev(startKey) && startKey == loc.StartKey
+//@   loop 2 invariant paired: len(keys) == len(values)
+//@   ensures paired: err == nil ==> len(keys) == len(values)
+//@   ensures done: err == nil ==> len(keys) >= limit || final(startKey) <= endKey
+
+// sendDeleteRangeReq deletes from the cursor to the end of its region, clipped to the end of the range.
+//@ func (c *Client) sendDeleteRangeReq
+//@   prop C11
+//@   bytes: key
+//@   at call(SendReq) assert request: arg_req != nil && arg_req.Req.(*kvrpcpb.RawDeleteRangeRequest).StartKey == startKey && arg_req.Req.(*kvrpcpb.RawDeleteRangeRequest).EndKey == minEnd(loc.EndKey, endKey) &&
+//@       arg_regionID == loc.Region && inRange(loc.StartKey, loc.EndKey, startKey)
+//@   ensures clipped: result2 == nil ==> (result1 == endKey || (result1 != "" && startKey < result1 && (endKey == "" || result1 < endKey)))
+
+// DeleteRange continues at the end of what was just deleted until the end of the range.
+//@ func (c *Client) DeleteRange
+//@   prop C11
+//@   bytes: key
+//@   at call(sendDeleteRangeReq) assert piece: arg_startKey == startKey && arg_endKey == endKey
+//@   loop 1 step walk: startKey == actualEndKey && prev(startKey) < startKey
+//@   ensures whole: result == nil ==> (endKey != "" && final(startKey) >= endKey) || actualEndKey == ""
+
+// BatchGet returns values positionally aligned with the requested keys (duplicates included): the i-th value is the value
+// the response holds for the i-th key, absent keys giving nil.
+//@ func (c *Client) BatchGet
+//@   prop C11
+//@   bytes: key
+//@   loop 2 invariant aligned: len(values) == len(keys) && -1 <= rangeindex && rangeindex < len(keys) && forall j int :: 0 <= j && j <= rangeindex ==> values[j] == keyToValue[string(keys[j])]
+//@   ensures aligned: result1 == nil ==> len(result0) == len(keys) && forall j int :: 0 <= j && j < len(keys) ==> result0[j] == keyToValue[string(keys[j])]
